@@ -211,6 +211,13 @@ func (w *World) ruleLocalIndexInRange(r *Report, rule string, min int) {
 						if lt.K != TPure || lt.Name != "len" || len(lt.Args) != 1 {
 							continue
 						}
+						// … or in every static caller, on the value handed over as that parameter
+						// (rules_localidx_callers.go)
+						if prm, isP := lt.Args[0].V.(*ssa.Parameter); isP && lt.Args[0].K == TLeaf && prm.Parent() == fn {
+							if at, ok := w.callersAccessFirst(fn, prm, c.Int64()); ok {
+								upper, how = true, fmt.Sprintf("the access [%d] at %s, in every caller, of the value whose length it was made with", c.Int64(), at)
+							}
+						}
 						for _, b2 := range fn.Blocks {
 							for _, in2 := range b2.Instrs {
 								var x2, i2 ssa.Value
